@@ -88,7 +88,7 @@ def _world(th, nb_of, statuses, with_uni, extra=()):
     """vertices u, a, b (+extra); universe [<sigma>, members] or None; NB map for the stub."""
     h = th.h
     h.reset()
-    th.V = V = {n: h.vertex(n) for n in ("u", "a", "b", "s") + tuple(extra)}
+    th.V = V = {n: h.vertex(n, "SymFalsyVert") for n in ("u", "a", "b", "s") + tuple(extra)}   # falsy-valued vertices: truthiness must never matter
     th.NB = {k: list(v) for k, v in nb_of.items()}
     th.calls = []
     uni = None
